@@ -165,6 +165,7 @@ def wire_level(ctx, rng, grant, nframes):
 
 def run(ctx):
     rng = ctx.rng
+    tg.set_verbosity_seed(ctx.seed)
     all_in, all_out = [], []
     for chunks in (2, 3, 5):
         ins, outs = abort_then_new_flow(ctx, rng, chunks)
@@ -218,6 +219,9 @@ def replay(ctx, rep):
         return tg.replay_work(rep['case'])
     s, wrote = tg.replay_script(rep['case'])
     try:
+        common_verdict = tg.replay_common(s)
+        if common_verdict:
+            return common_verdict
         t = s.t
         for i, f in enumerate(t.flows):
             up, down = wrote.get((i, 'app'), b''), wrote.get((i, 'dst'), b'')
